@@ -44,6 +44,12 @@ def load_findings(prop):
 
 def _init_worker():
     try:
+        import resource
+        cap = int(float(os.environ.get("VERIF_CASE_MEM_GB", "6")) * 2 ** 30)
+        resource.setrlimit(resource.RLIMIT_AS, (cap, cap))       # a call that allocates without end fails with MemoryError instead of thrashing the machine
+    except Exception:
+        pass
+    try:
         bind_repo()
     except Exception:
         pass
@@ -76,6 +82,8 @@ def _call(args):
             signal.signal(signal.SIGALRM, old)
     except _CaseTimeout:
         return {"id": case.get("id"), "__timeout__": limit, "given": case.get("given", {}), "events": case.get("events", [])}
+    except MemoryError:
+        return {"id": case.get("id"), "__timeout__": "the memory cap", "given": case.get("given", {}), "events": case.get("events", [])}
     except MachineryError as e:
         return {"id": case.get("id"), "__machinery__": str(e)}
     except Exception:
@@ -156,10 +164,10 @@ class Ctx:
         byid = {c["id"]: c for c in cases}
         for o in hung:
             self.mismatches.append({"key": "call/returns_within_the_case_time_limit/%s" % modname, "case": byid.get(o["id"], o), "ev": 0,
-                                    "detail": "no answer after %ss" % o["__timeout__"], "module": None, "cfg": None, "driver": modname,
+                                    "detail": "no answer within %s" % o["__timeout__"], "module": None, "cfg": None, "driver": modname,
                                     "exec_fn": fname, "family": "watchdog"})
         if hung:
-            self.notes.append("%d case(s) did not return within %ss (watchdog); %d case(s) of the family were not run"
+            self.notes.append("%d case(s) did not return within %s (watchdog: seconds / memory); %d case(s) of the family were not run"
                               % (len(hung), hung[0]["__timeout__"], len(cases) - len(out) - len(hung)))
         return out
 
@@ -372,7 +380,7 @@ def replay(prop, path):
         bind_repo()
         o = _call((rp["driver"], rp["exec_fn"], case))
         if isinstance(o, dict) and "__timeout__" in o:
-            print("REPLAY: property=%s key=%s still rejected (no answer after %ss)" % (prop, rp["key"], o["__timeout__"]))
+            print("REPLAY: property=%s key=%s still rejected (no answer within %s)" % (prop, rp["key"], o["__timeout__"]))
             return 1
         print("REPLAY: property=%s key=%s accepted on the current tree (the case returns)" % (prop, rp["key"]))
         return 0
